@@ -37,6 +37,8 @@ def profile(mode='read'):
         calls={
             'QByteArray::size/0': ('fn', 'QByteArray_size'),
             'QByteArray::isEmpty/0': ('fn', 'QByteArray_isEmpty'),
+            'QByteArray::at/1': ('expr', 'QBA_AT({0}, {1})'),
+            'op[]:QByteArray:int:const': ('expr', 'QBA_AT({0}, {1})'),
             'QByteArray::data/0': ('self',),
             'QByteArray::resize/1': ('fn', 'QByteArray_resize'),
             'QByteArray::left/1': ('fnret', 'QByteArray_left'),
@@ -103,6 +105,10 @@ def profile(mode='read'):
             'QHostAddress::toIPv4Address/0': ('field', 'v4'),
             'QHostAddress::toIPv6Address/0': ('fnret', 'QHostAddress_toIPv6Address'),
             'QString::toUtf8/0': ('fnret', 'QString_toUtf8'),
+            # number of UTF-16 code units: its own (uninterpreted) function of the string, NOT the UTF-8 length
+            'QString::size/0': ('expr', 'QString_utf16_len({0})'),
+            'QString::length/0': ('expr', 'QString_utf16_len({0})'),
+            'QString::count/0': ('expr', 'QString_utf16_len({0})'),
             'fn:addAddress': ('callee', 'addAddress'),
             'fn:encodeAddress': ('callee', 'encodeAddress'),
             'fn:encodeString': ('callee', 'encodeString'),
